@@ -96,7 +96,7 @@ pub fn transfer(c: &Case, rep: &mut Report) -> Result<&'static str, (String, Str
     };
     // ---- start state
     let mut start = c.start;
-    if start == 3 && c.strat.early.is_some() {
+    if matches!(start, 3 | 5 | 6) && c.strat.early.is_some() {
         start = 0; // outside the quantifier: a transfer starting with Block2 while one is unfinished
     }
     match start {
@@ -131,6 +131,21 @@ pub fn transfer(c: &Case, rep: &mut Report) -> Result<&'static str, (String, Str
         }
         3 => {
             srv.exchange(1, &get(next_mid(&mut mid), &["r"], None), &app);
+        }
+        5 | 6 => {
+            // an unfinished transfer on the key that was abandoned after one (5) or two (6) follow-up blocks had been
+            // served from the cache
+            let x = srv.exchange(1, &get(next_mid(&mut mid), &["r"], None), &app);
+            let mut m = x.reply.as_deref().and_then(parse_reply);
+            for _ in 0..(start - 4) {
+                match m.as_ref().and_then(|r| block_opt(r, 23)) {
+                    Some((num, true, szx)) => {
+                        let x = srv.exchange(1, &get(next_mid(&mut mid), &["r"], Some((num + 1, false, szx))), &app);
+                        m = x.reply.as_deref().and_then(parse_reply);
+                    }
+                    _ => break,
+                }
+            }
         }
         _ => {}
     }
@@ -266,7 +281,7 @@ pub fn transfer(c: &Case, rep: &mut Report) -> Result<&'static str, (String, Str
     // start state 3: if the new transfer was served in one message it installed no cache entry of its own, so the
     // older unfinished transfer is still cached and a further Block2 request would be "a transfer starting with
     // Block2 while an unfinished one is cached" - outside the quantifier
-    let stale_possible = start == 3 && followups == 0;
+    let stale_possible = matches!(start, 3 | 5 | 6) && followups == 0;
     if !stale_possible {
         let szx = last_szx.unwrap_or(2);
         mid += 1;
@@ -357,13 +372,13 @@ pub fn run(ctx: &Ctx, rep: &mut Report) {
     {
         let strats = strategies_small();
         let optsets: Vec<usize> = if ctx.thorough() { vec![0, 1, 2, 3] } else { vec![0, 2] };
-        let starts: Vec<u8> = if ctx.thorough() { vec![0, 1, 2, 3, 4] } else { vec![0, 2, 3] };
+        let starts: Vec<u8> = if ctx.thorough() { vec![0, 1, 2, 3, 4, 5, 6] } else { vec![0, 2, 3, 5] };
         let radices = [65u64, 99, strats.len() as u64, optsets.len() as u64, starts.len() as u64];
         let n = product(&radices);
         ctx.family(
             rep,
             "A-every-length-small-blocks",
-            "budget = overhead+28 .. overhead+92 (every value: block sizes 16, 32 and 64 with every slack) x body length 0..=98 (every value) x 9 client strategies (no preference, early SZX 0/1/2/6, reductions at the 1st/2nd follow-up) x application option sets (request type CON/NON and response code 2.05/2.04/4.04 vary with the option set) x start states {fresh, completed transfer on the key, unfinished transfers on other keys (other endpoint; 12 other paths incl. ones that equal the two-segment path under test after joining, re-splitting or reordering segments), unfinished transfer on the key + start without Block2; thorough: 300 requests on other keys between block 0 and block 1}; each a complete transfer",
+            "budget = overhead+28 .. overhead+92 (every value: block sizes 16, 32 and 64 with every slack) x body length 0..=98 (every value) x 9 client strategies (no preference, early SZX 0/1/2/6, reductions at the 1st/2nd follow-up) x application option sets (request type CON/NON and response code 2.05/2.04/4.04 vary with the option set) x start states {fresh, completed transfer on the key, unfinished transfers on other keys (other endpoint; 12 other paths incl. ones that equal the two-segment path under test after joining, re-splitting or reordering segments), unfinished transfer on the key (abandoned after block 0 / after one or two follow-ups served from the cache) + start without Block2; thorough: 300 requests on other keys between block 0 and block 1}; each a complete transfer",
             n,
             true,
             |i, rep| {
@@ -396,7 +411,7 @@ pub fn run(ctx: &Ctx, rep: &mut Report) {
             }
         }
         let optsets: Vec<usize> = if ctx.thorough() { vec![0, 1, 2, 3] } else { vec![0, 3] };
-        let starts: Vec<u8> = if ctx.thorough() { vec![0, 1, 2, 3, 4] } else { vec![0, 1, 4] };
+        let starts: Vec<u8> = if ctx.thorough() { vec![0, 1, 2, 3, 4, 5, 6] } else { vec![0, 1, 4, 6] };
         if ctx.thorough() {
             bodies.push(70_000); // more than 4096 blocks of 16 bytes: three-byte Block2 values
         }
